@@ -13,6 +13,7 @@ from checks import issuance_common as ic
 
 
 def run(ctx):
+    ctx.prove("IssuanceProofs")   # unbounded (TLAPS): accepted => honest content under the pinned key; tokens ignore the blind; verify-exact
     ic.model_check(ctx)
     n, cases, kinds = ic.run(ctx, "C02", ["mutations"])
     rejecting = sum(v for k, v in kinds.items() if not k.endswith("/Id"))
